@@ -305,6 +305,60 @@ def check_series(case):
     return {'nt': nt, 'cls': ['series:' + case['what'], 'asc' if asc else 'desc', 's-keykind:' + vals.dtype.kind, 'n>16' if n > 16 else 'n<=8'] + (['s-ties&n>16'] if nt and n > 16 else [])}
 
 
+# ---------------------------------------------------------------------------------------------
+# sort_columns on a grow-only Frame that grew after its column labels had been read
+
+@st.composite
+def go_column_cases(draw):
+    ch = {'hier': draw(st.booleans()), 'asc': draw(st.booleans()), 'read': draw(st.sampled_from(['values', 'none', 'iter', 'sort', 'display'])),
+          'extend': draw(st.booleans()), 'name': draw(st.sampled_from([None, 'fn']))}
+    m = draw(st.sampled_from([4, 3, 5, 2, 6]))
+    if ch['hier']:
+        labels = draw(gen.tree_labels_n(m))
+    else:
+        labels = list(draw(st.permutations(['c%d' % j for j in range(m)])))
+    split = draw(st.integers(1, m - 1))
+    return dict({'labels': labels, 'split': split}, **ch)
+
+
+def check_go_columns(case):
+    labels, split = case['labels'], case['split']
+    m = len(labels)
+    hier = case['hier']
+    data = np.arange(2 * m).reshape(2, m)
+    cix = sf.IndexHierarchy.from_labels(labels[:split]) if hier else sf.Index(labels[:split])
+    f = sf.FrameGO(gen.freeze(data[:, :split]), index=('x', 'y'), columns=cix, name=case['name'])
+    # the labels are read once (their arrays are now cached), then the frame grows, then it is sorted at once
+    if case['read'] == 'values':
+        f.columns.values
+    elif case['read'] == 'iter':
+        list(f.columns)
+    elif case['read'] == 'sort':
+        f.sort_columns()
+    elif case['read'] == 'display':
+        repr(f)
+    # (extend of hierarchical columns takes whole new outer labels only; otherwise the columns are set one by one)
+    can_extend = not hier or not ({l[0] for l in labels[:split]} & {l[0] for l in labels[split:]})
+    if case['extend'] and m - split >= 1 and can_extend:
+        ext = sf.Frame(gen.freeze(data[:, split:]), index=('x', 'y'), columns=sf.IndexHierarchy.from_labels(labels[split:]) if hier else sf.Index(labels[split:]))
+        g = lib(f.extend, ext)
+    else:
+        g = None
+        for j in range(split, m):
+            g = lib(f.__setitem__, labels[j], data[:, j])
+            if isinstance(g, Raised):
+                break
+    if isinstance(g, Raised):
+        raise Failure('raised:%s' % g.cls, 'growing the frame raised %r' % g.exc, g.where)
+    r = lib(lambda: f.sort_columns(ascending=case['asc']))
+    if isinstance(r, Raised):
+        raise Failure('raised:%s' % r.cls, 'sort_columns on the grown frame raised %r' % r.exc, r.where)
+    keycols = [gen.to_array('object', [l[d] for l in labels]) for d in range(len(labels[0]))] if hier else [gen.to_array('<U3', labels)]
+    exp = expected_order(keycols, case['asc'])
+    obs.expect_frame(r, ['x', 'y'], [canon(labels[j]) for j in exp], [arr_list(data[:, j]) for j in exp], 'sort_columns (grown FrameGO)', name=case['name'])
+    return {'nt': m - split >= 1 and case['read'] != 'none', 'cls': ['go-columns:' + ('hier' if hier else 'flat'), 'read:' + case['read'], 'extend' if case['extend'] else 'setitem']}
+
+
 def tag(case, f):
     if f.kind == 'raised:StopIteration' and case.get('what') == 'sort_values_axis0' and len(case['payload'][0]) == 0:
         return 'sort-values-axis0-on-zero-columns-raises-stopiteration'
@@ -318,6 +372,8 @@ def tag(case, f):
 SUBS = [
     Sub('frame', frame_cases(), check_frame, quick=6000, thorough=48000, tag=tag,
         rule='Frame sort_values / sort_index / sort_columns vs stable sorted(); descending == reverse'),
+    Sub('go_columns', go_column_cases(), check_go_columns, quick=1200, thorough=8000, tag=tag,
+        rule='FrameGO.sort_columns straight after growth (labels read before) vs sorted(); flat and hierarchical columns'),
     Sub('series', series_cases(), check_series, quick=4800, thorough=32000, tag=tag,
         rule='Series sort_values / sort_index vs stable sorted()'),
 ]
